@@ -118,6 +118,13 @@ def make_code(code, root=None, target=None):
         return (target.parent or root) if target is not None else root, 'self_ancestor'
     if form == 'lines':
         return text.split('\n'), 'lines'
+    if form == 'ast' and cat == 'identifier':
+        return ast.Name(id=text, ctx=ast.Load()), 'ast'   # hand-built: keeps the spelling as given (no NFKC normalisation)
+    if form == 'fst' and cat == 'identifier':
+        try:
+            return fst.FST(text, 'expr'), 'fst'
+        except Exception:
+            return text, 'src'
     if form == 'ast':
         a = harness_ast(cat, text)
         if a is not None:
@@ -324,7 +331,8 @@ def gen_code(rng, cat, n=1, forms=('src', 'src', 'ast', 'fst'), uniq=None):
         t = rng.choice(pool)
         if uniq is not None and t != '_':
             t = uniq(t, cat)
-        return {'form': 'src', 'cat': cat, 'text': t}
+        # identifiers can be given as a Name node too (FST with its own source spelling, or a hand-built pure AST)
+        return {'form': rng.choice(forms) if t.isidentifier() else 'src', 'cat': cat, 'text': t}
     parts = [rng.choice(pool) for _ in range(n)]
     if uniq is not None:
         parts = [uniq(p, cat) for p in parts]
